@@ -47,7 +47,7 @@ def main():
             if not ok:
                 print(name, 'EDIT-DOES-NOT-APPLY'); continue
             open(p, 'w').write(s)
-            env = dict(os.environ, GECS_REPO=tmp, GV_EVID_DIR=os.path.join(tmp, 'evidence'), GV_REPLAY_DIR=os.path.join(tmp, 'replay'), GV_GEN_DIR=os.path.join(tmp, 'gen'))
+            env = dict(os.environ, GV_NO_KANI=os.environ.get('GV_SELFTEST_KANI', '') and '' or '1', GECS_REPO=tmp, GV_EVID_DIR=os.path.join(tmp, 'evidence'), GV_REPLAY_DIR=os.path.join(tmp, 'replay'), GV_GEN_DIR=os.path.join(tmp, 'gen'))
             for pr in props:
                 r = subprocess.run([os.path.join(HERE, 'check'), pr], env=env, stdout=subprocess.PIPE, stderr=subprocess.PIPE)
                 tag = {0: 'ok', 1: 'FALSE-ALARM', 2: 'undecided'}.get(r.returncode, str(r.returncode))
